@@ -5,4 +5,4 @@ LEVEL = "proof"
 
 
 def run(chk, replay=None):
-    proccheck.run(chk, "PropC03", {'lifecycle': 6, 'inactivity': 2, 'mixed': 2, 'multi': 1}, 260, 4000, [301, 302, 303, 304, 305, 306], replay=replay)
+    proccheck.run(chk, "PropC03", {'lifecycle': 5, 'overlap': 4, 'inactivity': 2, 'mixed': 2, 'multi': 1}, 260, 4000, [301, 302, 303, 304, 305, 306], replay=replay)
